@@ -112,6 +112,13 @@ func runProperty(w *World, prop string, cfg RunConfig, only string) *checkOutcom
 			if fi.Spec != nil && !fi.Spec.Inline {
 				keys = append(keys, key)
 			}
+			if fi.Spec != nil && fi.Spec.Inline {
+				// inline functions are verified inside their callers: their anchors are checked here, so that a
+				// clause whose call site disappeared is reported and not silently dropped
+				if err := InlineAnchorError(fi); err != nil && (specMentionsTag(fi.Spec, prop) || hasTag(pi.Contracts.RunTags, prop)) {
+					oc.errs = append(oc.errs, err.Error())
+				}
+			}
 		}
 		sort.Strings(keys)
 		for _, key := range keys {
@@ -317,15 +324,19 @@ func cmdCheck(args []string) int {
 		fmt.Printf("UNDECIDED property=%s: cannot load %s with -tags verif: %v\n", prop, repo, err)
 		return 2
 	}
-	cfg := RunConfig{TimeoutMs: 30000, Workers: 10}
+	cfg := RunConfig{TimeoutMs: 30000, Workers: 10, RetryFactor: 6}
 	if tier == "thorough" {
-		cfg = RunConfig{TimeoutMs: 120000, Workers: 8, All: true}
+		cfg = RunConfig{TimeoutMs: 120000, Workers: 8, All: true, RetryFactor: 3}
 	}
-	oc := runProperty(w, prop, cfg, only)
 	if knownFile == "" {
 		knownFile = filepath.Join(verifDir, "known_findings.txt")
 	}
 	known, fixed := loadKnown(knownFile)
+	cfg.NoRetry = map[string]bool{}
+	for _, k := range known {
+		cfg.NoRetry[k.Obligation] = true
+	}
+	oc := runProperty(w, prop, cfg, only)
 	violations := 0
 	proved := 0
 	var knownHit []string
